@@ -1,6 +1,6 @@
 /-
   C15 — property theorems (and non-vacuity examples) ONLY.  Helper lemmas: `Lemmas.lean`, `Inv.lean`,
-  `Steps.lean`.
+  `Steps.lean`, `SpecLemmas.lean`.
 
   Property text: "For every set of cooperating tasks and every order of wake-ups, the single-threaded
   executor polls a task again whenever it has been woken since it last returned pending - including
@@ -15,6 +15,7 @@
   of tasks, the script lengths, the channels or the steps.
 -/
 import YashModel.Executor.Steps
+import YashModel.Executor.SpecLemmas
 namespace YashModel.Executor
 
 /-- a state the executor can be in: `n` steps into the run of some task system -/
@@ -233,5 +234,14 @@ theorem result_delivered_once (s : State) (h : Reachable s) (c : Nat) (hc : c < 
 
 example : (stepN 6 (init false [[.yield, .wait 0], [.signal 0, .spawn, .join], [.yield]] 2)).relay 2 = .done := by
   decide
+
+/-- The executable Spec (`Spec.lean`: the clauses of the property text as decidable checks, which the
+    driver evaluates after every step of the model's run and prints as its verdict) holds in every
+    reachable state, and its FIFO check holds across every step: the model never earns a `FAIL`. -/
+theorem spec_holds (s : State) (h : Reachable s) :
+    checkB s = none ∧ ∀ r, step s = some r → fifoB s.queue r.1.queue = true :=
+  ⟨checkB_of_inv (reachable_inv h) (reachable_trace h), fun r hs => fifoB_of_step s r hs⟩
+
+example : checkB (stepN 3 (init true [[.wait 0, .signal 0], [.signal 0]] 2)) = none := by decide
 
 end YashModel.Executor
